@@ -48,7 +48,7 @@ theorem attrAt_fresh (h : Heap) (r : AttrRec) (p : Nat) (hp : r.parent = some p)
     cases kwLookup r.own k with
     | some v => rfl
     | none =>
-      simp only [hr.2, hp, hlt, if_true]
+      simp only [hr.2.1, hp, hlt, if_true]
       rw [chainF_fuel attrs' _ h.attrs.length (p + 1) p hlt (by omega)]
       exact chainF_pub h.attrs attrs' k (p + 1) p (fun x hx => hpre x (by omega))
 
@@ -67,12 +67,26 @@ theorem getHeap_ok {h g x : Heap} (e : getHeap h = .ok g x) : g = h ∧ x = h :=
   simp only [SpyneModel.Derive.getHeap] at e
   cases e; exact ⟨rfl, rfl⟩
 
+theorem aliasColWrite_deep (F : Facts15) [d : DeepCopy F] (a : Nat) (kw : Kw) (h : Heap) :
+    aliasColWrite F a kw h = .ok h () := by
+  unfold aliasColWrite
+  simp only [Bind.bind, M.bind, SpyneModel.Derive.getHeap, d.deep, beq_self_eq_true, if_true]
+  cases colH h a <;> rfl
+
+theorem allocDerived_ok (F : Facts15) [DeepCopy F] {a : Nat} {kw : Kw} {h h' : Heap} {x : Nat}
+    (e : allocDerived F a kw h = .ok h' x) :
+    x = h.attrs.length ∧ h' = { h with attrs := h.attrs ++ [newAttrRec F h a kw] } := by
+  unfold allocDerived at e
+  simp only [Bind.bind, M.bind, SpyneModel.Derive.getHeap, aliasColWrite_deep, SpyneModel.Derive.allocAttrs] at e
+  cases e
+  exact ⟨rfl, rfl⟩
+
 /-- EXACT (primitives): `Integer(ge=0)`, `Unicode.customize(max_len=5)`, ... - every attribute of the returned class
     is the one written by the keyword loop, or else the one the source class resolves to -/
-theorem simpleCustomize_exact (F : Facts15) (src : Nat) (kw : Kw) (h h' : Heap) (id : Nat) (ih : Inv h)
+theorem simpleCustomize_exact (F : Facts15) [DeepCopy F] (src : Nat) (kw : Kw) (h h' : Heap) (id : Nat) (ih : Inv h)
     (sc : Cls) (hsc : h.cls[src]? = some sc) (hr : simpleCustomize F src kw h = .ok h' id) (k : String) :
     attrOf h' id k
-      = match kwLookup (newAttrRec h sc.attrs (if sc.kind == .number then numberKw F h sc.attrs kw else kw)).own k with
+      = match kwLookup (newAttrRec F h sc.attrs (if sc.kind == .number then numberKw F h sc.attrs kw else kw)).own k with
         | some v => some v
         | none => attrOf h src k := by
   unfold simpleCustomize at hr
@@ -87,8 +101,8 @@ theorem simpleCustomize_exact (F : Facts15) (src : Nat) (kw : Kw) (h h' : Heap) 
   obtain ⟨g4, u4, e4, hr4⟩ := bind_ok_inv _ _ _ _ _ hr3
   have hg4 := guardNone_ok e4; subst hg4
   obtain ⟨g5, a, e5, hr5⟩ := bind_ok_inv _ _ _ _ _ hr4
-  simp only [SpyneModel.Derive.allocAttrs] at e5
-  cases e5
+  obtain ⟨ha5, hg5⟩ := allocDerived_ok F e5
+  subst ha5; subst hg5
   obtain ⟨g6, h1, e6, hr6⟩ := bind_ok_inv _ _ _ _ _ hr5
   obtain ⟨hg6, hh1⟩ := getHeap_ok e6
   subst hg6; subst hh1
@@ -166,12 +180,15 @@ theorem subclassOp_result (F : Facts15) (base : Option Nat) (name : String) (ns 
 
 
 /-- what `newVariant` leaves behind: the new class record and the public part of its fresh `Attributes` -/
-theorem newVariant_result (sc : Cls) (src : Nat) (ext : Option Nat) (kw : Kw) (h0 h hv : Heap) (a n : Nat)
-    (hr : newVariant sc src ext kw h0 h = .ok hv (a, n)) :
+theorem newVariant_result (F : Facts15) [DeepCopy F] (sc : Cls) (src : Nat) (ext : Option Nat) (kw : Kw)
+    (h hv : Heap) (a n : Nat) (hr0 : newVariant F sc src ext kw h = .ok hv (a, n)) :
     a = h.attrs.length ∧ n = h.cls.length ∧ hv.cls[n]? = some (variantCls sc src a ext kw)
-      ∧ (hv.attrs[a]?).map AttrRec.pub = some (newAttrRec h0 sc.attrs kw).pub
+      ∧ (hv.attrs[a]?).map AttrRec.pub = some (newAttrRec F h sc.attrs kw).pub
       ∧ Ext h.cls.length h.attrs.length [] h hv := by
-  unfold newVariant at hr
+  have hr : newVariantTail (newAttrRec F h sc.attrs kw) sc src ext kw h = .ok hv (a, n) := by
+    unfold newVariant at hr0
+    simpa only [Bind.bind, M.bind, SpyneModel.Derive.getHeap, aliasColWrite_deep] using hr0
+  unfold newVariantTail at hr
   obtain ⟨g1, a1, e1, hr1⟩ := bind_ok_inv _ _ _ _ _ hr
   simp only [SpyneModel.Derive.allocAttrs] at e1
   cases e1
@@ -184,7 +201,7 @@ theorem newVariant_result (sc : Cls) (src : Nat) (ext : Option Nat) (kw : Kw) (h
   cases hr4
   -- the two bookkeeping steps respect the frame of the heap with the new class and record in it
   let hm : Heap := { cls := h.cls ++ [variantCls sc src h.attrs.length ext kw],
-                     attrs := h.attrs ++ [newAttrRec h0 sc.attrs kw] }
+                     attrs := h.attrs ++ [newAttrRec F h sc.attrs kw] }
   have x3 := (good_copyDca (n := hm.cls.length) (na := hm.attrs.length) (T := []) h.attrs.length hm
     (Nat.le_refl _) (Nat.le_refl _)).1
   rw [e3] at x3
@@ -214,7 +231,6 @@ theorem newVariant_result (sc : Cls) (src : Nat) (ext : Option Nat) (kw : Kw) (h
       simp only [hm]
       rw [List.getElem?_append_left hc]
 
-
 theorem liftExcept_ok {α : Type} {x : Except String α} {h g : Heap} {a : α} (e : liftExcept x h = .ok g a) : g = h := by
   unfold liftExcept at e
   cases x with
@@ -224,13 +240,13 @@ theorem liftExcept_ok {α : Type} {x : Except String α} {h g : Heap} {a : α} (
 /-- EXACT (ComplexModel / Array `customize`, with or without child attributes): the returned class is new, it is
     a class of the same family registered with the same original, and each of its attributes is the value the
     keyword loop wrote for it, or else what the source class resolves to -/
-theorem custComplex_exact (F : Facts15) (fuel src : Nat) (kw : Kw) (ca : Option (List (String × Kw))) (caa : Option Kw)
+theorem custComplex_exact (F : Facts15) [DeepCopy F] (fuel src : Nat) (kw : Kw) (ca : Option (List (String × Kw))) (caa : Option Kw)
     (h h' : Heap) (id : Nat) (ih : Inv h) (sc : Cls) (hsc : h.cls[src]? = some sc)
     (hr : custComplex F (fuel + 1) src kw ca caa h = .ok h' id) :
     h.cls.length ≤ id
       ∧ (∃ cl, h'.cls[id]? = some cl ∧ cl.kind = sc.kind ∧ cl.orig = some (sc.orig.getD src))
       ∧ ∀ k, attrOf h' id k
-          = match kwLookup (newAttrRec h sc.attrs kw).own k with
+          = match kwLookup (newAttrRec F h sc.attrs kw).own k with
             | some v => some v
             | none => attrOf h src k := by
   simp only [custComplex] at hr
@@ -246,7 +262,7 @@ theorem custComplex_exact (F : Facts15) (fuel src : Nat) (kw : Kw) (ca : Option 
   have hg4 := liftExcept_ok e4; subst hg4
   obtain ⟨hv, an, e5, hr5⟩ := bind_ok_inv _ _ _ _ _ hr4
   obtain ⟨a, n⟩ := an
-  obtain ⟨ha, hn, hcls, hpub, hext⟩ := newVariant_result sc' src ext kw g4 g4 hv a n e5
+  obtain ⟨ha, hn, hcls, hpub, hext⟩ := newVariant_result F sc' src ext kw g4 hv a n e5
   obtain ⟨g6, u6, e6, hr6⟩ := bind_ok_inv _ _ _ _ _ hr5
   obtain ⟨g7, u7, e7, hr7⟩ := bind_ok_inv _ _ _ _ _ hr6
   simp only [Pure.pure, M.pure] at hr7
@@ -285,7 +301,7 @@ theorem custComplex_exact (F : Facts15) (fuel src : Nat) (kw : Kw) (ca : Option 
       simp only [hfin, hsc, hcore.2.1]
       have hattr : (variantCls sc' src a ext kw).attrs = a := rfl
       rw [hattr, ha]
-      have e := attrAt_fresh g4 (newAttrRec g4 sc'.attrs kw) sc'.attrs rfl hrange g7.attrs
+      have e := attrAt_fresh g4 (newAttrRec F g4 sc'.attrs kw) sc'.attrs rfl hrange g7.attrs
         (fun y hy => by
           rw [x.attrs y (by omega)]
           exact hext.attrs y hy)
@@ -324,7 +340,7 @@ theorem numberKw_mandatory (F : Facts15) (hF : F.mslRule = .followsRequested) (h
 
 /-- EXACT (Mandatory on a primitive): the returned class has `min_occurs = 1`, `nillable = False` (and `min_len = 1`
     for Unicode); by `simpleCustomize_exact` everything else the keyword loop does not write is the source's -/
-theorem mandatory_simple_exact (F : Facts15) (hF : F.mslRule = .followsRequested) (fuel src : Nat) (h h' : Heap)
+theorem mandatory_simple_exact (F : Facts15) [DeepCopy F] (hF : F.mslRule = .followsRequested) (fuel src : Nat) (h h' : Heap)
     (id : Nat) (ih : Inv h) (sc : Cls) (hsc : h.cls[src]? = some sc)
     (hk : sc.kind = .number ∨ sc.kind = .unicode ∨ sc.kind = .bytes ∨ sc.kind = .simple)
     (hr : mandatory F (fuel + 2) src h = .ok h' id) :
@@ -362,7 +378,7 @@ theorem mandatory_simple_exact (F : Facts15) (hF : F.mslRule = .followsRequested
   rw [hkw] at hex
   obtain ⟨m1, m2, m3⟩ := mand_lookup F sc2
   have hown : ∀ k v, kwLookup (normKw (mandatoryKw F sc2)) k = some v →
-      kwLookup (newAttrRec g4 sc2.attrs (mandatoryKw F sc2)).own k = some v := by
+      kwLookup (newAttrRec F g4 sc2.attrs (mandatoryKw F sc2)).own k = some v := by
     intro k v hkv
     simp only [newAttrRec, kwLookup, List.find?_append] at hkv ⊢
     cases hf : List.find? (fun p => p.1 == k) (normKw (mandatoryKw F sc2)) with
@@ -374,5 +390,62 @@ theorem mandatory_simple_exact (F : Facts15) (hF : F.mslRule = .followsRequested
   · intro hu
     rw [hex "min_len", hown _ _ (m3 hu)]
 
+
+/-- with a deep copy, the fresh record holds a dict of its own: the source's keywords plus the loop's writes -/
+theorem newAttrRec_col (F : Facts15) [d : DeepCopy F] (h : Heap) (a : Nat) (kw : Kw) :
+    (newAttrRec F h a kw).colArgs = some (applyCol (((colH h a).map (·.2)).getD []) (colWrites kw)) := by
+  unfold newAttrRec
+  cases colH h a with
+  | none => rfl
+  | some p => simp [d.deep]
+
+theorem colH_fresh (attrs' : List AttrRec) (cls' : List Cls) (a : Nat) (r : AttrRec) (dd : Kw)
+    (hr : (attrs'[a]?).map AttrRec.pub = some r.pub) (hd : r.colArgs = some dd) :
+    colH { cls := cls', attrs := attrs' } a = some (a, dd) := by
+  cases hr' : attrs'[a]? with
+  | none => simp [hr'] at hr
+  | some r' =>
+    simp only [hr', Option.map_some, Option.some.injEq] at hr
+    have hc : r'.colArgs = some dd := by
+      have := congrArg (fun p => p.2.2.1) hr
+      simp only [AttrRec.pub] at this
+      rw [this, hd]
+    unfold colH
+    rw [chainH_own attrs' colSel a r' (.inl dd) hr' (by simp [colSel, hc])]
+
+/-- EXACT (column keywords, primitives): the derived class's `sqla_column_args[-1]` is a dict of its own holding
+    the source's keywords plus `primary_key` / `autoincrement` / `onupdate` / `server_default` as requested -/
+theorem simpleCustomize_col (F : Facts15) [DeepCopy F] (src : Nat) (kw : Kw) (h h' : Heap) (id : Nat)
+    (sc : Cls) (hsc : h.cls[src]? = some sc) (hr : simpleCustomize F src kw h = .ok h' id) :
+    (obs1 F h' id).map (·.col)
+      = some (some (applyCol (((colH h sc.attrs).map (·.2)).getD [])
+          (colWrites (if sc.kind == .number then numberKw F h sc.attrs kw else kw)))) := by
+  unfold simpleCustomize at hr
+  obtain ⟨g1, sc', e1, hr1⟩ := bind_ok_inv _ _ _ _ _ hr
+  obtain ⟨hg1, hsc'⟩ := getCls_ok e1 hsc
+  subst hg1; subst hsc'
+  obtain ⟨g2, u2, e2, hr2⟩ := bind_ok_inv _ _ _ _ _ hr1
+  have hg2 := guardNone_ok e2; subst hg2
+  obtain ⟨g3, h0, e3, hr3⟩ := bind_ok_inv _ _ _ _ _ hr2
+  obtain ⟨hg3, hh0⟩ := getHeap_ok e3
+  subst hg3; subst hh0
+  obtain ⟨g4, u4, e4, hr4⟩ := bind_ok_inv _ _ _ _ _ hr3
+  have hg4 := guardNone_ok e4; subst hg4
+  obtain ⟨g5, a, e5, hr5⟩ := bind_ok_inv _ _ _ _ _ hr4
+  obtain ⟨ha5, hg5⟩ := allocDerived_ok F e5
+  subst ha5; subst hg5
+  obtain ⟨g6, h1, e6, hr6⟩ := bind_ok_inv _ _ _ _ _ hr5
+  obtain ⟨hg6, hh1⟩ := getHeap_ok e6
+  subst hg6; subst hh1
+  simp only [SpyneModel.Derive.allocCls] at hr6
+  cases hr6
+  have hattrs : ∀ hh : Heap, (simpleNewCls F hh sc' src g4.attrs.length kw).attrs = g4.attrs.length := by
+    intro hh; unfold simpleNewCls; split <;> rfl
+  unfold obs1
+  simp only [List.getElem?_concat_length, Option.map_some, hattrs]
+  rw [colH_fresh _ _ g4.attrs.length
+    (newAttrRec F g4 sc'.attrs (if (sc'.kind == Kind.number) = true then numberKw F g4 sc'.attrs kw else kw)) _
+    (by simp) (newAttrRec_col F g4 sc'.attrs _)]
+  rfl
 
 end SpyneModel.Derive
